@@ -336,6 +336,39 @@ theorem timer_kept_by_backlog (g : Cfg) (s : S) (op : Op) (ht : s.wTimer = true)
           rw [if_neg hcl] at ho
           simp [flipWE, flip] at ho
       · exact h1
+  | evConnEnd =>
+    show (evConnEnd g s).wTimer = true
+    unfold evConnEnd
+    split
+    · exact ht
+    · split
+      · rw [wT_cResetRead]; exact ht
+      · exact ht
+  | evRearm =>
+    show (evRearm g s).wTimer = true
+    unfold evRearm
+    split
+    · exact ht
+    · split
+      · rw [wT_resetPollerEvent]; exact ht
+      · exact ht
+  | evErrClose =>
+    replace ho : (evErrClose s).closed = false := ho
+    show (evErrClose s).wTimer = true
+    unfold evErrClose at ho ⊢
+    split
+    · exact ht
+    · rename_i hg
+      rw [if_neg hg] at ho
+      split
+      · rename_i he
+        rw [if_pos he] at ho
+        split
+        · exact ht
+        · rename_i hcl
+          rw [if_neg hcl] at ho
+          simp [flipWE, flip] at ho
+      · exact ht
   | flipClosed =>
     simp only [step, flipClosed] at ho hw ⊢
     split
